@@ -80,7 +80,12 @@ def run(ctx):
     for _ in range(n_read):
         shape = rnd.choice(shapes)
         pe = []
+        inside = all(shape) and rnd.random() < 0.5       # half of the windows lie inside the array (a valid view of full rank)
         for ext in shape:
+            if inside:
+                p = rnd.randint(0, ext - 1)
+                pe.append((p, rnd.randint(1, ext - p)))
+                continue
             p = rnd.randint(0, ext + 1)
             pe.append((p, rnd.randint(0, ext + 2 - p) if rnd.random() < 0.8 else rnd.randint(0, ext + 2)))
         views.append((shape, pe, gen_expr(rnd, shape, allow_long=(rnd.random() < 0.15))))
@@ -92,7 +97,7 @@ def run(ctx):
             pe = []
             for ext in shape:
                 p = rnd.randint(0, ext)
-                pe.append((p, rnd.randint(0, ext - p)))
+                pe.append((p, rnd.randint(1, ext - p) if p < ext and rnd.random() < 0.8 else rnd.randint(0, ext - p)))
             writes.append((shape, pe, gen_expr(rnd, shape)))
     impl = ctx.run_impl("impl_slices.py", {"read": reads, "view": views, "write": writes}, timeout=3000)
     failures, disagreements = [], []
